@@ -78,7 +78,8 @@ def check(ctx):
 
     o = ctx.ob('intersection_test', 'R8',
                "_has_id_intersection: receiving tree = subtree of the root, incoming = subtrees of all given tasks, tasks already in the tree "
-               "are removed by OBJECT identity, distinct incoming tasks with equal ids are rejected, ids are compared exactly", floor=5)
+               "are removed by OBJECT identity, distinct incoming tasks with equal ids are rejected, ids are compared exactly; "
+               "_collect_subtree lists the task and the subtree of every child", floor=6)
     ctx.guarded(o, lambda o: intersection(ctx, o))
 
     o = ctx.ob('lookup_and_enumeration', 'R8',
@@ -282,7 +283,8 @@ def _if_of(f, node):
 
 
 def intersection(ctx, o):
-    from .c05_util import check_intersection
+    from .c05_util import check_intersection, check_collect_subtree
+    check_collect_subtree(ctx, o, ctx.prog.func('task._collect_subtree'))
     check_intersection(ctx, o, ctx.prog.func('task._has_id_intersection'))
 
 
